@@ -43,7 +43,12 @@ Definition match_deferred (m : matcher) (d : deferred) (lg : log) : bool * defer
   end.
 
 (* extract_result: addCallbacks(successes.append, failures.append) - both return None *)
-Inductive xexc := XUser (e : nat) | XNotFired | XOther.
+(* exceptions are class tokens; two of them are the classes the helpers themselves raise, and a failed
+   Deferred (or a test) may just as well carry them *)
+Definition notfired_tok := 90.      (* testtools.twistedsupport._deferred.DeferredNotFired *)
+Definition impossible_tok := 91.    (* testtools.twistedsupport._deferred.ImpossibleDeferredError *)
+Inductive xexc := XUser (e : nat) | XOther.          (* an exception of class e; a class outside the pools *)
+Definition XNotFired := XUser notfired_tok.
 Definition extract_result (d : deferred) (lg : log) : res nat xexc * deferred * log :=
   let seen := if runnable d then d_result d else None in
   let '(d1, lg1) := add_callbacks (CConst 0, CConst 0) d lg in
